@@ -48,6 +48,22 @@ Proof.
 Qed.
 Print Assumptions C26_interrupted_iff_ctx_error.
 
+(* a caller with a cancellable ctx that is queued on handshakeMutex (p = P2) — or anywhere else before its epilogue —
+   already has its interrupter: when its ctx is cancelled the interrupter can fire at once, without the mutex, and
+   that closes the connection (which is what ends the I/O of whoever owns the handshake) *)
+Theorem C26_cancel_while_queued_closes : forall s0 s, start_ok s0 -> reach s0 s -> cancellable s = true -> p s = P2 ->
+  it s <> INone /\
+  (it s = IWait -> cancelled s = true -> exists s', step s LIFire = Some s' /\ conn_closed s' = true /\ it s' = IFired).
+Proof.
+  intros s0 s H0 R Hc HP. pose proof (inv_reach _ _ (start_inv _ H0) R) as I.
+  pose proof (sweep _ queued_all s) as H. unfold queued_p in H. rewrite I, Hc, HP in H. cbn [andb implb] in H.
+  apply andb_true_iff in H as [H _]. apply andb_true_iff in H as [H1 H2]. split.
+  - intros E. rewrite E in H1. cbn in H1. discriminate.
+  - intros E C. rewrite E, C in H2. cbn [is_iwait andb negb orb] in H2. destruct (step s LIFire) as [s'|]; [|discriminate].
+    exists s'. apply andb_true_iff in H2 as [A B]. repeat split; auto. destruct (it s'); try discriminate; reflexivity.
+Qed.
+Print Assumptions C26_cancel_while_queued_closes.
+
 (* nil and the stored error exclude each other for good *)
 Theorem C26_outcome_exclusive : forall s0 s, start_ok s0 -> reach s0 s -> complete s && hs_err s = false.
 Proof.
